@@ -10,6 +10,8 @@ import (
 	"errors"
 	"fmt"
 	"github.com/ipld/go-ipld-prime/codec"
+	"github.com/ipld/go-ipld-prime/schema"
+	"github.com/ipld/go-ipld-prime/traversal"
 	"io"
 	"io/fs"
 	"os"
@@ -94,7 +96,10 @@ func (classyErr) Is(target error) bool {
 
 // bareFaults are error values a storage adapter may return unwrapped.
 var bareFaults = []error{io.EOF, io.ErrUnexpectedEOF, context.Canceled, fs.ErrNotExist, &fs.PathError{Op: "open", Path: "/blocks/verif-injected", Err: syscall.ENOENT},
-	fs.ErrPermission, &fs.PathError{Op: "open", Path: "/blocks/verif-injected", Err: syscall.EACCES}, context.DeadlineExceeded, io.ErrClosedPipe, classyErr{}}
+	fs.ErrPermission, &fs.PathError{Op: "open", Path: "/blocks/verif-injected", Err: syscall.EACCES}, context.DeadlineExceeded, io.ErrClosedPipe, classyErr{},
+	// error values that mean something to go-ipld-prime or to this library when THEY produce them ("skip this link", "no
+	// such field", "iterator exhausted"): coming out of storage they are failures like any other
+	traversal.SkipMe{}, schema.ErrNoSuchField{Field: datamodel.PathSegmentOfString("verif-injected")}, datamodel.ErrNotExists{Segment: datamodel.PathSegmentOfString("verif-injected")}, datamodel.ErrIteratorOverread{}}
 
 // genWriteFaultKind is genFaultKind for WRITE faults, where the verdict is only "an error and no link": it also draws the
 // bare values (negative kinds: -1-i selects bareFaults[i]).
@@ -183,6 +188,11 @@ type Store struct {
 	Park map[cid.Cid]chan struct{}
 	// ParkedNow lists the requests that arrived and are (or were) held back
 	ParkedNow []cid.Cid
+
+	// RawEnvelope > 0: link systems made for this store encode raw-codec blocks with that many bytes of envelope in
+	// front of the content (a storage layer that frames or seals leaf blocks; the link system's EncoderChooser is the
+	// caller's to set): the encoded length of a leaf is then more than its content
+	RawEnvelope int
 
 	// Yield: every read open, write open and commit first gives up the processor (runtime.Gosched), as a store that
 	// blocks on I/O does: in checks that run several goroutines this opens the windows between a library call's steps
@@ -367,6 +377,25 @@ func (s *Store) LinkSystem() *ipld.LinkSystem {
 func (s *Store) LinkSystemVariant(variant int) *ipld.LinkSystem {
 	ls := s.linkSystemVariant(variant)
 	ls.TrustedStorage = s.Trusted
+	if s.RawEnvelope > 0 {
+		inner := ls.EncoderChooser
+		env := bytes.Repeat([]byte{0xE7}, s.RawEnvelope)
+		ls.EncoderChooser = func(lp datamodel.LinkPrototype) (codec.Encoder, error) {
+			enc, err := inner(lp)
+			if err != nil {
+				return nil, err
+			}
+			if clp, ok := lp.(cidlink.LinkPrototype); !ok || clp.Codec != codecRaw {
+				return enc, nil
+			}
+			return func(n datamodel.Node, w io.Writer) error {
+				if _, err := w.Write(env); err != nil {
+					return err
+				}
+				return enc(n, w)
+			}, nil
+		}
+	}
 	if s.PieceWrites > 0 {
 		// an encoder that hands the block to storage in several Write calls (a streaming encoder, or one behind a small
 		// buffered writer) - the stock dag-pb and raw encoders happen to use one Write per block
